@@ -117,16 +117,17 @@ class CallEncodeTask(Task):
 
 class EncodeTask(Task):
     """_encode: range checks, payload through _call_encode_function, fast packets iff the PGN is a fast PGN."""
-    def __init__(self, prop):
+    def __init__(self, prop, payload_len=9):
         self.prop = prop
-        self.name = f'{prop}:_encode'
+        self.payload_len = payload_len
+        self.name = f'{prop}:_encode' + (f'[payload={payload_len}]' if payload_len != 9 else '')
 
     def run(self, tier):
         out = {'results': [], 'functions': [], 'notes': [], 'bounded': []}
         r = repo()
         info = r.func(ENC + '_encode')
         out['functions'].append(info.describe())
-        base = f'{self.prop}/{ENC}_encode'
+        base = f'{self.prop}/{ENC}_encode' + (f'[payload_bytes={self.payload_len}]' if self.payload_len != 9 else '')
         KIND = z3.Function('fast_kind', z3.IntSort(), z3.IntSort())
 
         def run(ex):
@@ -138,7 +139,7 @@ class EncodeTask(Task):
             msg = Obj(r.cls('message', 'NMEA2000Message'), dict(f, id='x', fields=Opaque('fields')))
             g['msg'] = msg
             enc = Obj(r.cls('encoder', 'NMEA2000Encoder'), {'sequence_counter': ex.fresh('seq', bits=3)})
-            g['payload'] = SBytes([ex.fresh(f'payload[{i}]', bits=8) for i in range(9)])
+            g['payload'] = SBytes([ex.fresh(f'payload[{i}]', bits=8) for i in range(self.payload_len)])
             g['frames'] = [Opaque('frame0'), Opaque('frame1')]
             return ex._run_body(info, [msg], {}, enc)
 
